@@ -87,7 +87,8 @@ func genCase(t *rapid.T) Case {
 	}
 	layouts := gen.Layouts4
 	if c.Format == "geojson" {
-		layouts = []geom.Layout{geom.XY, geom.XYZ, geom.XYZM}
+		// (GeoJSON positions may have any number of ordinates: five and six as well)
+		layouts = []geom.Layout{geom.XY, geom.XYZ, geom.XYZM, geom.XY, geom.XYZ, geom.XYZM, geom.Layout(5), geom.Layout(6)}
 	}
 	g := gen.Tree(t, gen.TreeOpts{
 		Layouts: layouts, Floats: gen.SmallInt, MaxDepth: 2, MaxParts: 3, MaxPts: 4,
@@ -139,6 +140,9 @@ func genCase(t *rapid.T) Case {
 	if c.Format == "geojson" {
 		c.BBox = rapid.Bool().Draw(t, "bbox")
 		c.BBoxFirst = rapid.Bool().Draw(t, "bboxFirst")
+		if g.ReportedLayout().Stride() > 4 {
+			c.BBox = false // the library has no bounding box for more than four ordinates (it says so)
+		}
 	}
 	return c
 }
